@@ -1224,7 +1224,10 @@ namespace bloch::compiler {
                 default:
                     break;
             }
-            return std::make_unique<LiteralExpression>(LiteralExpression{tok.value, litType});
+            auto literal = std::make_unique<LiteralExpression>(tok.value, litType);
+            literal->line = tok.line;
+            literal->column = tok.column;
+            return literal;
         }
 
         if (match(TokenType::Null)) {
